@@ -104,7 +104,7 @@ func genKey(r *simrt.Rand) string {
 func genC08(r *simrt.Rand, tier string) any {
 	p := &C08Plan{Enumerate: true}
 	n := 1 + r.Intn(4)
-	kinds := []string{"write", "write", "writereader", "writereader", "append", "delete", "stat", "read", "readtoat", "list", "exists", "removedir", "listobjects"}
+	kinds := []string{"write", "write", "writereader", "writereader", "append", "delete", "stat", "read", "readto", "readtoat", "list", "exists", "removedir", "listobjects"}
 	var keys []string
 	for i := 0; i < 1+r.Intn(2); i++ {
 		keys = append(keys, genKey(r))
@@ -197,6 +197,8 @@ type execResult struct {
 	crashed  bool
 	res      simrt.Result
 	complete map[[32]byte]bool // hashes of complete intended contents
+	// what readers of final keys were handed that is not a complete content
+	readerSaw []string
 }
 
 func exec(p *C08Plan, cfg simrt.Config, root string, f Fault) *execResult {
@@ -295,7 +297,17 @@ func exec(p *C08Plan, cfg simrt.Config, root string, f Fault) *execResult {
 				case "stat":
 					_, err = be.StatFile(ctx, key)
 				case "read":
-					_, err = be.Read(ctx, key)
+					var got []byte
+					got, err = be.Read(ctx, key)
+					if err == nil && !er.complete[sha256.Sum256(got)] {
+						er.readerSaw = append(er.readerSaw, fmt.Sprintf("Read(%q) during the run returned %d bytes", key, len(got)))
+					}
+				case "readto":
+					var buf bytes.Buffer
+					err = be.ReadTo(ctx, key, &buf)
+					if err == nil && !er.complete[sha256.Sum256(buf.Bytes())] {
+						er.readerSaw = append(er.readerSaw, fmt.Sprintf("ReadTo(%q) during the run returned %d bytes", key, buf.Len()))
+					}
 				case "readtoat":
 					err = be.ReadToAt(ctx, key, io.Discard, int64(op.Part))
 				case "list":
@@ -314,6 +326,37 @@ func exec(p *C08Plan, cfg simrt.Config, root string, f Fault) *execResult {
 		h1 := simrt.GoOn("ops1", nd, func() { runOps(1) })
 		simrt.Join(h0)
 		simrt.Join(h1)
+		// readers after the run (after a crash: the restarted process). Read and
+		// ReadTo are the APIs that serve a FINAL key (ReadToAt is the resume API
+		// and falls back to <key>.part by design).
+		simrt.SetFSInjector(nil)
+		rd := simrt.NodeOf("reader")
+		hr := simrt.GoOn("readers", rd, func() {
+			be2, err := storage.NewLocalBackend(filepath.Join(root, "data"), quiet)
+			if err != nil {
+				return
+			}
+			seen := map[string]bool{}
+			for i := range p.Ops {
+				op := &p.Ops[i]
+				if op.Kind != "write" && op.Kind != "writereader" && op.Kind != "append" {
+					continue
+				}
+				key, ok := route(op)
+				if !ok || seen[key] {
+					continue
+				}
+				seen[key] = true
+				if got, err := be2.Read(context.Background(), key); err == nil && !er.complete[sha256.Sum256(got)] {
+					er.readerSaw = append(er.readerSaw, fmt.Sprintf("Read(%q) after the run returned %d bytes", key, len(got)))
+				}
+				var buf bytes.Buffer
+				if err := be2.ReadTo(context.Background(), key, &buf); err == nil && !er.complete[sha256.Sum256(buf.Bytes())] {
+					er.readerSaw = append(er.readerSaw, fmt.Sprintf("ReadTo(%q) after the run returned %d bytes", key, buf.Len()))
+				}
+			}
+		})
+		simrt.Join(hr)
 		er.mutOps = mut
 		er.crashed = nd.Dead
 		er.touched = append([]string(nil), simrt.TouchedPaths()...)
@@ -331,6 +374,14 @@ func judge(out *simkit.Outcome, p *C08Plan, root string, er *execResult, what st
 			out.Violate("C08.escapes-root", "%s: file-system operation on %q, outside the storage root", what, strings.TrimPrefix(c, root))
 			return
 		}
+	}
+	if len(er.readerSaw) > 0 {
+		api := "Read"
+		if strings.HasPrefix(er.readerSaw[0], "ReadTo") {
+			api = "ReadTo"
+		}
+		out.Violate("C08.reader-handed-partial-content-for-final-key."+api, "%s: %s, which is not the complete content of any write (crashed=%v)", what, er.readerSaw[0], er.crashed)
+		return
 	}
 	// nothing may exist next to the data root
 	ents, _ := os.ReadDir(root)
